@@ -46,11 +46,21 @@ pub fn take_counters() -> (BTreeMap<&'static str, u64>, BTreeMap<&'static str, u
     })
 }
 
-fn fresh() -> u64 {
+/// The resolution of an open choice is a deterministic function of (case seed, primitive, argument
+/// contents): asking the same question twice gives the same answer, as on any real backend, while
+/// different cases (seeds) resolve the same question differently.
+fn fresh(tag: u64, content: &[&[usize]], extra: usize) -> u64 {
+    let mut h = mix(tag ^ 0xA5A5_0000_0000_0000 ^ (extra as u64).wrapping_mul(0x9E37_79B9_7F4A_7C15));
+    for part in content {
+        h = mix(h ^ part.len() as u64);
+        for &x in part.iter() {
+            h = mix(h ^ (x as u64).wrapping_add(0x1234_5678_9ABC_DEF1));
+        }
+    }
     ADV.with(|a| {
         let mut a = a.borrow_mut();
         a.calls += 1;
-        mix(a.seed ^ a.calls.wrapping_mul(0x9E37_79B9_7F4A_7C15))
+        mix(a.seed ^ h)
     })
 }
 
@@ -149,7 +159,7 @@ impl<T: Clone> Array<AdvKind, T> for AdvArray<T> {
             return AdvArray(vec![]);
         }
         // filler: some element of self other than the first when possible; write order: seeded
-        let h = fresh();
+        let h = fresh(1, &[idx], n);
         let filler = self.0[(h % self.0.len() as u64) as usize].clone();
         let mut y = vec![filler; n];
         let order = perm(idx.len(), h);
@@ -161,7 +171,7 @@ impl<T: Clone> Array<AdvKind, T> for AdvArray<T> {
         AdvArray(y)
     }
     fn scatter_assign(&mut self, ixs: &AdvArray<usize>, values: Self) {
-        let h = fresh();
+        let h = fresh(2, &[&ixs.0], self.0.len());
         let n = ixs.0.len().min(values.0.len());
         let order = perm(n, h);
         for &i in &order {
@@ -202,12 +212,15 @@ impl<T: Clone + Sub<Output = T>> Sub<AdvArray<T>> for AdvArray<T> {
 impl<T: Ord + Clone> OrdArray<AdvKind, T> for AdvArray<T> {
     fn argsort(&self) -> AdvArray<usize> {
         // sorting permutation with seeded tie order (the Vec backend is stable)
-        let h = fresh();
+        let mut stable: Vec<usize> = (0..self.0.len()).collect();
+        stable.sort_by_key(|&i| &self.0[i]);
+        // content signature of an array of an arbitrary ordered type: its stable sorting permutation
+        // and which neighbours in sorted order are equal
+        let ties: Vec<usize> = stable.windows(2).map(|w| (self.0[w[0]] == self.0[w[1]]) as usize).collect();
+        let h = fresh(3, &[&stable, &ties], 0);
         let tie: Vec<u64> = (0..self.0.len()).map(|i| mix(h ^ i as u64)).collect();
         let mut idx: Vec<usize> = (0..self.0.len()).collect();
         idx.sort_by(|&a, &b| self.0[a].cmp(&self.0[b]).then(tie[a].cmp(&tie[b])));
-        let mut stable: Vec<usize> = (0..self.0.len()).collect();
-        stable.sort_by_key(|&i| &self.0[i]);
         note("argsort_tie_order", idx != stable);
         AdvArray(idx)
     }
@@ -245,7 +258,7 @@ impl NaturalArray<AdvKind> for AdvArray<usize> {
         let pairs: Vec<(usize, usize)> = sources.0.iter().cloned().zip(targets.0.iter().cloned()).collect();
         let (cls, k) = components(n, &pairs);
         // dense numbering, but not by first occurrence: seeded permutation of the labels
-        let p = perm(k, fresh());
+        let p = perm(k, fresh(4, &[&sources.0, &targets.0], n));
         note("component_numbering", !p.iter().enumerate().all(|(a, b)| a == *b));
         (AdvArray(cls.iter().map(|&c| p[c]).collect()), k)
     }
@@ -263,7 +276,7 @@ impl NaturalArray<AdvKind> for AdvArray<usize> {
         }
         let keys: Vec<usize> = m.keys().cloned().collect();
         // the Vec backend returns sorted keys; here: seeded order
-        let p = perm(keys.len(), fresh());
+        let p = perm(keys.len(), fresh(5, &[&self.0], 0));
         note("sparse_bincount_key_order", !p.iter().enumerate().all(|(a, b)| a == *b));
         let k2: Vec<usize> = p.iter().map(|&i| keys[i]).collect();
         let c2: Vec<usize> = k2.iter().map(|k| m[k]).collect();
@@ -271,7 +284,7 @@ impl NaturalArray<AdvKind> for AdvArray<usize> {
     }
     fn zero(&self) -> AdvArray<usize> {
         let z: Vec<usize> = (0..self.0.len()).filter(|&i| self.0[i] == 0).collect();
-        let p = perm(z.len(), fresh());
+        let p = perm(z.len(), fresh(6, &[&self.0], 0));
         note("zero_index_order", !p.iter().enumerate().all(|(a, b)| a == *b));
         AdvArray(p.iter().map(|&i| z[i]).collect())
     }
